@@ -66,6 +66,24 @@ func main() {
 			e.Emit(concCase(s, out, clean))
 		}
 		e.Meta["runs_stopped_inside_a_store_callback"] = nSd
+		// truly parallel callers
+		if !e.Search || focus == "" || strings.HasPrefix(focus, "par/") || strings.HasPrefix(focus, "hash/") {
+			for kind := 0; kind < nKinds; kind++ {
+				e.Emit(hashCase(kind, e.Rnd, e.Scale(20000, 200000)))
+			}
+			crc8 := []int{kInt64CRC, kUInt64CRC, kIntCRC, kUIntCRC, kString, kInt64, kUInt32CRC, kBytes}
+			nPar := e.Scale(4, 24)
+			for i := 0; i < nPar && timeouts < 2*maxTimeouts; i++ {
+				kind := crc8[i%len(crc8)]
+				if !kindCacheable(kind) {
+					continue // no real facade can hold a Bytes key
+				}
+				for _, c := range runPar(e.Rnd, kind, 120) {
+					e.Emit(c)
+				}
+			}
+			e.Meta["parallel_runs"] = nPar
+		}
 		e.Meta["expired_10s_bounds"] = timeouts
 		if (e.Thorough || e.Search) && !strings.HasPrefix(focus, "seq/") {
 			// complete enumeration of the schedules of a few small programs
